@@ -16,9 +16,9 @@ P = {
     "theorems": ["C18_converges", "C18_exactly_once", "C18_unchanged_no_reload", "C18_removed_unloaded",
                  "C18_invalid_keeps_previous", "C18_frame",
                  "C18_fs_all_histories", "C18_fs_all_histories_pinned", "C18_fs_stored_hash",
-                 "C18_http_all_histories", "C18_http_stored_hash",
+                 "C18_http_all_histories", "C18_http_stored_hash", "C18_http_latest_valid",
                  "C18_fs_active_is_stored_hash", "C18_http_active_is_stored_hash",
-                 "C18_fs_converges_world", "C18_fs_converges_world_pinned",
+                 "C18_fs_converges_world", "C18_fs_applied_at_most_once", "C18_fs_converges_world_pinned",
                  "C18_fs_F2_pinned_refuted", "C18_fs_F4_pinned_refuted", "C18_fs_nonvacuous",
                  "C18_blob_all_histories", "C18_blob_all_histories_pinned", "C18_blob_stored_hash",
                  "C18_blob_F1_pinned_refuted", "C18_blob_F5_refuted", "C18_blob_F6_refuted",
@@ -27,37 +27,45 @@ P = {
         "name": "fs", "pkg": "./internal/rules/provider/filesystem", "test": "TestVerifC18Fs",
         "overlay": dict(_COMMON, **{"internal/rules/provider/filesystem/zz_verif_c18_test.go": "c18/fs_test.go"}),
         "eval_module": "Run.Eval_C18", "check_term": "check_fs " + _B("F2"),
-        "n_quick": 500, "n_thorough": 8000, "findings": {},
+        "n_quick": 500, "n_thorough": 16000, "findings": {},
     }, {
         "name": "fsreal", "pkg": "./internal/rules", "test": "TestVerifC18Real",
         "overlay": dict(_COMMON, **{"internal/rules/zz_verif_c18_test.go": "c18/real_test.go",
                                     "internal/rules/provider/filesystem/zz_verif_c18_export.go": "c18/fs_export.go"}),
         "eval_module": "Run.Eval_C18", "check_term": "check_fsr " + _B("F2"),
-        "n_quick": 300, "n_thorough": 4000, "findings": {},
+        "n_quick": 300, "n_thorough": 8000, "findings": {},
     }, {
         "name": "http", "pkg": "./internal/rules/provider/httpendpoint", "test": "TestVerifC18HTTP",
         "overlay": dict(_COMMON, **{"internal/rules/provider/httpendpoint/zz_verif_c18_test.go": "c18/http_test.go"}),
         "eval_module": "Run.Eval_C18", "check_term": "check_http",
-        "n_quick": 400, "n_thorough": 6000, "findings": {},
+        "n_quick": 400, "n_thorough": 12000, "findings": {},
     }, {
         "name": "blob", "pkg": "./internal/rules/provider/cloudblob", "test": "TestVerifC18Blob",
         "overlay": dict(_COMMON, **{"internal/rules/provider/cloudblob/zz_verif_c18_test.go": "c18/blob_test.go"}),
         "eval_module": "Run.Eval_C18", "check_term": "check_blob " + _B("F1"),
-        "n_quick": 400, "n_thorough": 6000, "findings": {5: "C18-F5", 6: "C18-F6"},
+        "n_quick": 400, "n_thorough": 12000, "findings": {5: "C18-F5", 6: "C18-F6"},
     }, {
         "name": "k8s", "pkg": "./internal/rules/provider/kubernetes", "test": "TestVerifC18K8s",
         "overlay": dict(_COMMON, **{"internal/rules/provider/kubernetes/zz_verif_c18_test.go": "c18/k8s_test.go"}),
         "eval_module": "Run.Eval_C18", "check_term": "check_k8s",
-        "n_quick": 300, "n_thorough": 4000, "findings": {},
+        "n_quick": 300, "n_thorough": 8000, "findings": {},
     }],
-    "rule": "per provider, generated histories of 1-30 events over 1-3 sources (file system: file changes valid/absent/empty/"
-            "invalid with 5 empty and 11 invalid byte variants, fsnotify events of every kind incl. combined op bits, orderly and "
-            "out-of-order/repeated/stale notifications, initial loads; HTTP endpoint: polls answered by 200/yaml|json|other|no "
-            "content type x valid/empty/invalid body, other status codes, connection error, timeout, cancellation; 20% of the "
-            "contents rejected by the processor, 8% of the cases with a source whose deletion the processor refuses) run through "
-            "the real event entry points with a recording processor; corpus (finding witnesses) first; non-trivial = the history "
-            "produced an accepted update or deletion, or kept a loaded version while seeing an invalid/rejected one; distinct by "
-            "hash of the generated input",
+    "rule": "five streams of generated histories (1-30 events over 1-3 sources each), every one through the REAL event entry points, "
+            "corpus (witnesses of C18-F1/F2/F4/F5/F6 + corpus/C18/*.json) first: "
+            "fs = file changes (valid/absent/empty/invalid with 5 empty and 11 invalid byte variants) x fsnotify events of every "
+            "kind incl. combined op bits, orderly and out-of-order/repeated/stale notifications, initial loads, via "
+            "ruleSetsChanged/loadInitialRuleSet with a recording processor; "
+            "fsreal = the same histories (disjoint content ranges per file) through the real rule-set processor, real rule "
+            "factory (stub catalogue) and real repository, observing what the repository holds per source after every event; "
+            "http = polls via watchChanges answered by an httptest server: 200 x yaml|json|unsupported|no content type x "
+            "valid/empty/invalid body, other status codes, connection error, deadline, cancellation; "
+            "blob = polls via watchChanges over an in-memory driver.Bucket: listings (paged) and single-blob endpoints, "
+            "failures injected at open/list/attrs/read x gcerrors codes; "
+            "k8s = watch events (added/modified/deleted, class and generation changes, initial list, ~25% cases with deliveries "
+            "an API server would not make) through provider.Start with the real client-go informer. "
+            "12-20% of the contents are rejected by the processor (unsupported version / unknown mechanism), 8% of the fs/http "
+            "cases have a source whose deletion the processor refuses. Non-trivial = the history produced an accepted update or "
+            "deletion, or kept a loaded version while seeing an invalid/rejected one; distinct by hash of the generated input",
     "anchors": ["internal/rules/provider/filesystem/provider.go", "internal/rules/provider/httpendpoint/provider.go",
                 "internal/rules/provider/httpendpoint/ruleset_endpoint.go", "internal/rules/provider/cloudblob/provider.go",
                 "internal/rules/provider/cloudblob/ruleset_endpoint.go", "internal/rules/provider/kubernetes/provider.go",
@@ -65,24 +73,38 @@ P = {
     "trusted": ["content hashes (SHA-256/MD5) are modelled by the identity of the content (only equality of hashes is used)",
                 "the rule-set parser (YAML/JSON decoding + validation) is not modelled: the class of a content (absent/empty/invalid/"
                 "valid) is data of the case, realised by real bytes the real parser classifies in the run",
-                "the rule-set processor is an oracle per content (accept/reject) and per source (deletion accepted/refused)",
-                "fsnotify, gocron scheduling, net/http transport: the drivers call the event entry points synchronously "
-                "(ruleSetsChanged, loadInitialRuleSet, watchChanges); delivery and scheduling of events are not modelled"],
-    "level_text": "Proof (kernel-checked, no axioms): for the file-system, HTTP-endpoint and cloud-blob provider models, for ALL finite histories "
-                  "of source changes, notifications/polls (any kind, repeated, out of order) and fetch outcomes, the sequence of "
-                  "accepted OnCreated/OnUpdated/OnDeleted calls is exactly the one that tracks the latest valid content seen of each "
-                  "source (trace_ok), by induction with the invariant stored hash = latest valid content seen; from trace_ok follow "
-                  "convergence, exactly-once application, no reload on unchanged content, unloading of removed/emptied sources and "
-                  "keeping the previous version on invalid/rejected content. The models are tied to provider.go/ruleset_endpoint.go by "
-                  "running the real handlers on ~1300 (quick) generated histories per run and comparing calls, results, returned errors "
-                  "and stored hashes per event.",
-    "level_note": "File system: proved outside the guards of the open findings C18-F2 (Rename ignored) and C18-F4 (stale Remove), and "
-                  "without guards for the repaired dispatch (fixes/C18-F2.diff). Trusted: Coq kernel/vm_compute; the correspondence "
-                  "harness; hashes as content identities; parser and processor as oracles; event delivery (fsnotify, scheduler) not "
-                  "modelled. Cloud blob: proved outside the guards of C18-F1 (fix candidate), C18-F5, C18-F6 for histories "
-                  "conforming to the endpoint configuration; the cloud store is an in-memory driver stub. Kubernetes: see docs/notes/C18.md.",
-    "assumptions": ["in-package drivers read Provider.states and call unexported handlers: a rename of those breaks the driver, not the property",
-                    "the processor's answer depends only on the content (create/update) or the source (delete), not on the call history"],
+                "the rule-set processor is an oracle per content (accept/reject) and per source (deletion accepted/refused); the "
+                "stream fsreal checks that the real processor+factory+repository behave like that oracle and like the ideal "
+                "repository keyed by source id (for rule sets that do not compete for paths)",
+                "event delivery is not modelled: fsnotify, gocron scheduling, net/http transport; the drivers call "
+                "ruleSetsChanged, loadInitialRuleSet, watchChanges synchronously",
+                "cloud store: an in-memory gocloud driver.Bucket stub reporting the gcerrors codes real drivers report (C18-F1/F5/F6 "
+                "were additionally replayed against gofakes3 + s3blob)",
+                "Kubernetes: the client-go informer dispatch and cache.FilteringResourceEventHandler are transcribed into the model "
+                "as observed (the run uses the real ones); status updates, finalize, relist are not modelled"],
+    "level_text": "Proof (kernel-checked, no axioms; coqchk in the thorough tier): for the models of all four rule providers, for ALL "
+                  "finite histories of source changes, notifications/polls/watch events (any kind, repeated, stale, out of order) and "
+                  "fetch outcomes, the sequence of accepted OnCreated/OnUpdated/OnDeleted calls is exactly the one that tracks the "
+                  "latest valid content seen of each source (trace_ok; for Kubernetes modulo idempotent calls), by induction with the "
+                  "invariant stored hash = latest valid content seen; from trace_ok follow convergence, exactly-once application, no "
+                  "reload on unchanged content, unloading of removed/emptied sources and keeping the previous version on "
+                  "invalid/rejected content. File system additionally at world level: after the last change of a file any processed "
+                  "notification makes the loaded version the file's latest valid content, and the accepted calls per file never "
+                  "exceed the file's changes. The models are tied to the provider sources by running the real handlers on ~1900 "
+                  "(quick) / ~56000 (thorough) generated histories per run and comparing calls, results, returned errors, stored "
+                  "hashes and (fsreal) the real repository's content per event.",
+    "level_note": "File system and cloud blob are the providers as they are after the fix: commits 07a625c (C18-F2, C18-F4) and 9cefff4 "
+                  "(C18-F1); the pinned behaviour is kept as *_pinned theorems and *_pinned_refuted witnesses. Cloud blob is proved "
+                  "outside the guards of the open findings C18-F5 (one unloadable blob freezes the bucket) and C18-F6 (single-blob "
+                  "endpoint never notices the deletion), for histories conforming to the endpoint configuration. Kubernetes is proved "
+                  "for well-formed watch histories (k8s_wf) and read modulo idempotent processor calls. Trusted: Coq kernel/vm_compute; "
+                  "the correspondence harness; hashes as content identities; parser and processor as oracles (the processor oracle is "
+                  "itself checked against the real processor+repository by the fsreal stream); event delivery, cloud store driver and "
+                  "client-go informer as observed.",
+    "assumptions": ["in-package drivers read Provider.states / BucketState and call unexported handlers: a rename of those breaks the driver, not the property",
+                    "the processor's answer depends only on the content (create/update) or the source (delete), not on the call history "
+                    "(rule sets of different sources competing for the same path are outside the model: C06)",
+                    "HTTP: an endpoint that cannot be reached counts as a source that no longer exists (its rule set is unloaded until it answers again)"],
 }
 
 # VERIF_C18_STREAMS=fs,blob restricts a run to some streams (used for mutation testing only)
